@@ -5,6 +5,7 @@ mod util;
 mod c01;
 mod c04;
 mod c05;
+mod c06;
 mod c09;
 mod c11;
 mod c12;
@@ -26,6 +27,7 @@ fn dispatch(case: &Value) -> Value {
         "c01" => c01::run(k, case),
         "c04" => c04::run(k, case),
         "c05" => c05::run(k, case),
+        "c06" => c06::run(k, case),
         "c09" => c09::run(k, case),
         "c11" => c11::run(k, case),
         "c12" => c12::run(k, case),
